@@ -109,16 +109,25 @@ func (s *Solvers) Run(query string, cover bool) SolveResult {
 	}
 	var results []SolveResult
 	var best *SolveResult
+	var grace <-chan time.Time
+loop:
 	for range defs {
-		r := <-ch
-		results = append(results, r)
-		if r.Verdict != "unknown" && best == nil {
-			rr := r
-			best = &rr
-			if !s.All {
-				cancel()
-				break
+		select {
+		case r := <-ch:
+			results = append(results, r)
+			if r.Verdict != "unknown" && best == nil {
+				rr := r
+				best = &rr
+				if !s.All {
+					cancel()
+					break loop
+				}
+				// cross-check mode: give the other solvers a short grace period to agree or disagree
+				grace = time.After(3 * time.Second)
 			}
+		case <-grace:
+			cancel()
+			break loop
 		}
 	}
 	if s.All {
